@@ -110,6 +110,9 @@ extern struct vc_snap_t vc_snap;
 #define VC_SNAP_SCARG(i, v)     if (!vc_snap.taken) { vc_snap.sc[i] = (unsigned long long)(v); }
 #define VC_SNAP_DONE            if (!vc_snap.taken) { vc_snap.code = g_ctx.code; vc_snap.handler = (g_ctx.last != NULL); vc_snap.taken = 1; }
 
+#define VC_DIGS_FRESH(p, n)  __CPROVER_is_fresh(p, (n) * sizeof(dig_t))
+#define VC_PTR_SAME(p, q)    __CPROVER_pointer_equals(p, q)
+
 /* ---- ghost index / carries for digit-relation contracts --------------------------------------------------- */
 extern size_t gk;
 extern dig_t g_dig0;          /* ghost: pre-state value of the observed element (bound by a requires clause) */
